@@ -11,7 +11,15 @@ C19 driver. Case lines (after the id):
                                                 (`load_config_file`, `Logger::new`, one record)
   roller-cfg <env> <pattern> <base> <count> <rolls>   rolling appender + fixed-window roller from a
                                                 configuration file, one roll per record
-<env> = `~` or `,`-joined entries `<name>;<value>` (strings hex-encoded as everywhere).
+  rolling / rolling-cfg <env> <path> <fw|del> <appends>   a HISTORY through the real appender: size
+                                                trigger (limit 2 bytes, one byte per record), fixed-window
+                                                roller `r.{}.log` count 2 or delete roller; observation
+                                                hist:<step>|<step>|…, one step after build and after every
+                                                append: <file>=<content>,…;open=<file the appender holds open|->
+                                                (the 3-field form means `fw 8`)
+<env> = `~` or `,`-joined entries `<name>;<value>` (strings hex-encoded as everywhere) or
+`b:<name bytes>;<value bytes>` (contiguous hex, `_` empty): a variable whose name or value need not
+be valid UTF-8 (the process environment as the OS holds it).
 Paths of the call-site kinds are relative to a fresh scratch directory the harness `cd`s into.
 The model of every call site is `location` (EnvExpand/Model.lean); the specification is ONE
 application of the single pass to the text the call site was given (`specLocation`).
@@ -36,12 +44,46 @@ def alnum (c : Char) : Bool :=
 def known (s : Text) : Bool :=
   s.all (fun c => c.toNat < 128 || sampleTable.any (fun e => e.1 = c.toNat))
 
-def decEnv (s : String) : Option Env :=
-  mapM? (fun e => match splitOnChar ';' e with
+def decOsEnv (s : String) : Option OsEnv :=
+  mapM? (fun e =>
+    if e.startsWith "b:" then
+      match splitOnChar ';' (e.drop 2).toString with
+      | [k, v] => match decBytes k, decBytes v with
+        | some k, some v => some (k, v)
+        | _, _ => none
+      | _ => none
+    else match splitOnChar ';' e with
     | [k, v] => match decStr k, decStr v with
-      | some k, some v => some (k, v)
+      | some k, some v => some (utf8 k, utf8 v)
       | _, _ => none
     | _ => none) (decList ',' s)
+
+/-- the environment block has unique names (it is a map) -/
+def uniqueNames (os : OsEnv) : Bool := (os.map (·.1)).eraseDups.length = os.length
+
+/-- some variable's name or value is not valid UTF-8 -/
+def foreign (os : OsEnv) : Bool :=
+  os.any (fun e => (decodeUtf8 e.1).isNone || (decodeUtf8 e.2).isNone)
+
+def hasSub (pat s : Text) : Bool :=
+  match s with
+  | [] => false
+  | c :: rest => Log4rs.Str.isPrefix pat (c :: rest) || hasSub pat rest
+
+/-- a variable the path names in a well-formed reference has a value that is not valid Unicode -/
+def refNotUnicode (os : OsEnv) (p : Text) : Bool :=
+  os.any (fun e => match decodeUtf8 e.1 with
+    | some n => (decodeUtf8 e.2).isNone && hasSub (refLit n) p
+    | none => false)
+
+def envTags (os : OsEnv) (p : Text) : List String :=
+  (if foreign os then ["foreign-env"] else []) ++ (if refNotUnicode os p then ["ref-not-unicode"] else [])
+
+/-- decoded environment: the OS block, what `std::env::var` sees of it -/
+def decEnv (s : String) : Option (OsEnv × Env) :=
+  match decOsEnv s with
+  | some os => if uniqueNames os then some (os, unicodeView os) else none
+  | none => none
 
 def siteOf (kind : String) (slot : Nat) : Option CallSite :=
   match kind with
@@ -62,11 +104,6 @@ def renderOut : Outcome Unit Text → String
   | .ok t => "ok:" ++ encStr t
   | .err _ => "err"
   | .panic _ => "PANIC"
-
-def hasSub (pat s : Text) : Bool :=
-  match s with
-  | [] => false
-  | c :: rest => Log4rs.Str.isPrefix pat (c :: rest) || hasSub pat rest
 
 /-- number of `$ENV{` occurrences whose reference is well formed / set / … -/
 structure Census where
@@ -104,10 +141,12 @@ def tagsOf (kind : String) (env : Env) (p : Text) (constructs : Bool) : List Str
   let t := if reexpands env p then t ++ ["non-idempotent"] else t
   if p.all (· ≠ '$') then t ++ ["trivial"] else t
 
-/-- class of the input of a failure: at a call site, an input on which a second application of
-the expansion changes the result; an input on which the historical replace-all differs (F7); other -/
-def failSig (callSite : Bool) (nonIdem constructs : Bool) : String :=
-  if callSite && nonIdem then "C19/call-site-not-expanded-exactly-once"
+/-- class of the input of a failure: a panic in an environment holding a variable that is not valid
+Unicode; at a call site, an input on which a second application of the expansion changes the
+result; an input on which the historical replace-all differs (F7); other -/
+def failSig (implObs : String) (foreignEnv callSite nonIdem constructs : Bool) : String :=
+  if implObs = "PANIC" && foreignEnv then "C19/panics-on-foreign-environment"
+  else if callSite && nonIdem then "C19/call-site-not-expanded-exactly-once"
   else if constructs then "C19/substitution-constructs-reference"
   else "C19/expansion-differs-from-single-pass"
 
@@ -136,19 +175,91 @@ def outText : Outcome Unit Text → Option Text
   | .ok t => some t
   | _ => none
 
+/-! ### rolling history (kinds `rolling`, `rolling-cfg`) -/
+
+def archName (i : Nat) : Text := "r.".toList ++ Log4rs.Str.decimal i ++ ".log".toList
+
+def renderStep (d : Roller.Disk) (openAt : Option Text) : String :=
+  let entries := d.files.map (fun e =>
+    encStr e.1 ++ "=" ++ (if e.2.isEmpty then "_" else String.ofList (e.2.map Char.ofNat)))
+  encList "," (entries.toArray.qsort (· < ·)).toList ++ ";open=" ++ (match openAt with
+    | some p => encStr p
+    | none => "-")
+
+structure Hist where
+  disk : Roller.Disk
+  writerOpen : Bool
+  len : Nat
+  steps : List String
+
+/-- one `append` of the record whose text is the digit `k % 10`, every file-system use at `loc` -/
+def histAppend (loc : Text) (fw : Bool) (h : Hist) (k : Nat) : Hist :=
+  -- get_writer: reopen in append mode after a roll
+  let (disk, len) := if h.writerOpen then (h.disk, h.len) else
+    match h.disk.get? loc with
+    | some c => (h.disk, c.length)
+    | none => (h.disk.set loc [], 0)
+  let content := (disk.get? loc).getD []
+  let disk := disk.set loc (content ++ [48 + k % 10])
+  let len := len + 1
+  -- SizeTrigger(2): `len > limit`
+  if len > 2 then
+    let disk := if fw then
+        match (Roller.fixedWindowRoll { nameOf := archName, base := 0, count := 2 } loc (fun _ => false) disk).1 with
+        | .ok d => d
+        | .error _ => disk
+      else disk.erase loc
+    { disk, writerOpen := false, len := 0, steps := h.steps ++ [renderStep disk none] }
+  else { disk, writerOpen := true, len, steps := h.steps ++ [renderStep disk (some loc)] }
+
+def simRolling (loc : Text) (fw : Bool) (appends : Nat) : List String :=
+  let d0 := Roller.Disk.empty.set loc []
+  let h0 : Hist := { disk := d0, writerOpen := true, len := 0, steps := [renderStep d0 (some loc)] }
+  ((List.range appends).foldl (histAppend loc fw) h0).steps
+
+def renderHist (steps : List String) : String := "hist:" ++ "|".intercalate steps
+
+def knownEnv (env : Env) : Bool := env.all (fun e => known e.1 && known e.2)
+
+def rollingCase (kind : String) (os : OsEnv) (env : Env) (p : Text) (fw : Bool) (appends : Nat)
+    (implObs : String) : Answer :=
+  match siteOf kind 0 with
+  | some site =>
+    let m := location alnum env site p
+    let s := specLocation alnum env site p
+    if !(nicePath s && (outText m).all nicePath) then badCase "path not file-system friendly" else
+    let constructs := expand_unfixed alnum env p ≠ .ok s
+    let tags := tagsOf kind env p constructs ++ envTags os p
+      ++ [if fw then "fixed-window" else "delete"] ++ (if appends ≥ 6 then ["two-rolls"] else [])
+    let wantSteps := simRolling s fw appends
+    let want := renderHist wantSteps
+    -- the history agrees until the first roll (after the third append) and differs afterwards
+    let implSteps := splitOnChar '|' ((implObs.drop 5).toString)
+    let untilRoll := implSteps.take 3 = wantSteps.take 3 && appends ≥ 3 && s ≠ p
+    { model := match m with
+        | .ok t => renderHist (simRolling t fw appends)
+        | _ => "PANIC",
+      spec := if implObs = want then "ok" else
+        "FAIL:rolling history expected " ++ want ++ ";sig=" ++
+          (if implObs ≠ "PANIC" && untilRoll then "C19/location-not-stable-across-rolls"
+           else failSig implObs (foreign os) true (reexpands env p) constructs),
+      tags }
+  | none => badCase "kind"
+
 def handle : Handler := fun cas obs =>
   match cas, obs with
   | [kind, envS, pathS], [implObs] =>
     match decEnv envS, decStr pathS with
-    | some env, some p =>
-      if !(known p && env.all (fun e => known e.1 && known e.2)) then badCase "character outside the classified samples" else
+    | some (os, env), some p =>
+      if !(known p && knownEnv env) then badCase "character outside the classified samples" else
+      if kind = "rolling" || kind = "rolling-cfg" then rollingCase kind os env p true 8 implObs else
       let s := specExpand alnum env p
       let constructs := expand_unfixed alnum env p ≠ .ok s
-      let tags := tagsOf kind env p constructs
+      let tags := tagsOf kind env p constructs ++ envTags os p
       if kind = "hook" then
         let want := "ok:" ++ encStr s
-        { model := renderOut (expand alnum env p),
-          spec := if implObs = want then "ok" else "FAIL:expansion expected " ++ want ++ ";sig=" ++ failSig false false constructs,
+        { model := renderOut (expandOs alnum os p),
+          spec := if implObs = want then "ok" else "FAIL:expansion expected " ++ want ++ ";sig=" ++ failSig implObs (foreign os) false false constructs,
           tags }
       else match siteOf kind 0 with
       | some site =>
@@ -160,15 +271,24 @@ def handle : Handler := fun cas obs =>
         { model := match m with
             | .ok t => "created:" ++ encStr t
             | _ => "PANIC",
-          spec := if implObs = want then "ok" else "FAIL:file location expected " ++ want ++ ";sig=" ++ failSig true (reexpands env p) constructs,
+          spec := if implObs = want then "ok" else "FAIL:file location expected " ++ want ++ ";sig=" ++ failSig implObs (foreign os) true (reexpands env p) constructs,
           tags }
       | none => badCase "kind"
     | _, _ => badCase "decode"
+  | [kind, envS, pathS, rollerS, appendsS], [implObs] =>
+    if kind ≠ "rolling" && kind ≠ "rolling-cfg" then badCase "kind" else
+    match decEnv envS, decStr pathS, decNat appendsS with
+    | some (os, env), some p, some appends =>
+      if !(known p && knownEnv env) then badCase "character outside the classified samples" else
+      if rollerS ≠ "fw" && rollerS ≠ "del" then badCase "roller" else
+      if appends > 10 then badCase "appends" else
+      rollingCase kind os env p (rollerS = "fw") appends implObs
+    | _, _, _ => badCase "decode"
   | [kind, envS, patS, baseS, countS, rollsS], [implObs] =>
     if kind ≠ "roller" && kind ≠ "roller-cfg" then badCase "kind" else
     match decEnv envS, decStr patS, decNat baseS, decNat countS, decNat rollsS with
-    | some env, some pat, some base, some count, some rolls =>
-      if !(known pat && env.all (fun e => known e.1 && known e.2)) then badCase "character outside the classified samples" else
+    | some (os, env), some pat, some base, some count, some rolls =>
+      if !(known pat && knownEnv env) then badCase "character outside the classified samples" else
       let idxs := (List.range (count + 1)).map (· + base)
       let site := fun i => (siteOf kind i).getD (.rollerBuilder i)
       let mName := fun i => (outText (location alnum env (site i) pat)).getD []
@@ -176,13 +296,13 @@ def handle : Handler := fun cas obs =>
       if !(idxs.all (fun i => nicePath (mName i) && nicePath (sName i))) then badCase "path not file-system friendly" else
       let constructs := idxs.any (fun i => expand_unfixed alnum env (slotText pat i) ≠ .ok (sName i))
       let nonIdem := idxs.any (fun i => reexpands env (slotText pat i))
-      let tags := tagsOf kind env (slotText pat base) constructs
+      let tags := tagsOf kind env (slotText pat base) constructs ++ envTags os (slotText pat base)
       let tags := if nonIdem && !tags.contains "non-idempotent" then tags ++ ["non-idempotent"] else tags
       match runRolls mName base count rolls 0 Roller.Disk.empty, runRolls sName base count rolls 0 Roller.Disk.empty with
       | some dm, some ds =>
         let want := renderDisk ds
         { model := renderDisk dm,
-          spec := if implObs = want then "ok" else "FAIL:archive locations expected " ++ want ++ ";sig=" ++ failSig true nonIdem constructs,
+          spec := if implObs = want then "ok" else "FAIL:archive locations expected " ++ want ++ ";sig=" ++ failSig implObs (foreign os) true nonIdem constructs,
           tags }
       | _, _ => badCase "roll"
     | _, _, _, _, _ => badCase "decode"
